@@ -741,6 +741,32 @@ def rule_X4(F, R, clauses=('parse', 'order', 'model', 'retain', 'export', 'vars'
             ok = chans == {'stdin', 'file', 'evaluate'}
             R.count('X4:input-channels', len(chans)); R.obligation(ok, 'X4 channels')
             if not ok: R.violation('rsbdd::main / X4 / input channels', 'X4', 'the single parser call is fed by %s, expected --evaluate, FILE and stdin' % sorted(chans))
+            # where value provenance can follow the reader completely, each channel must hand the parser its whole, unchanged content:
+            # a decision tree over the two options whose leaves are as_bytes(<--evaluate text>), open(<FILE>) and stdin() - nothing wrapped around them
+            if ok:
+                import flow
+                fl = flow.Flow(binc)
+                found = []
+                flow.scan(fl, body, {}, lambda x: x.get('k') == 'Call' and callee_name(x) == PF + 'new', found)
+                term = fl.ev(found[0][0]['args'][0], found[0][1]) if len(found) == 1 else ('unknown', 'parser call')
+                def has_unknown(t_): return isinstance(t_, tuple) and (t_[:1] == ('unknown',) or any(has_unknown(y) for y in t_))
+                leaves = []
+                def tree(t_, known):
+                    if t_[0] == 'optcase' and t_[1][0] == 'field' and t_[1][1] == ('args',):
+                        tree(t_[3], dict(known, **{t_[1][2]: t_[2]})); tree(t_[4], dict(known, **{t_[1][2]: None}))
+                    else: leaves.append((t_, known))
+                if not has_unknown(term):
+                    tree(term, {})
+                    bad = None
+                    for lf, known in leaves:
+                        while lf[0] == 'call' and lf[1] in ('std::io::Stdin::lock',) and lf[2]: lf = lf[2][0]
+                        good = (lf == ('call', 'std::io::stdin', ())) and known.get('evaluate', None) is None and known.get('input', None) is None and set(known) == {'evaluate', 'input'} \
+                            or (lf[0] == 'call' and lf[1] in ('std::string::String::as_bytes', 'core::str::<impl str>::as_bytes') and known.get('evaluate') is not None and lf[2] == (known['evaluate'],)) \
+                            or (lf[0] == 'call' and lf[1] == 'std::fs::File::open' and known.get('input') is not None and lf[2] == (known['input'],))
+                        if not good: bad = bad or lf
+                    okp = bad is None and len(leaves) == 3
+                    R.count('X4:input-channel-leaves', len(leaves)); R.obligation(okp, 'X4 channel contents')
+                    if not okp: R.violation('rsbdd::main / X4 / input channel contents', 'X4', 'every input channel must hand the parser its whole content unchanged (as_bytes of the --evaluate text, the opened FILE, stdin); found %s' % flow.show(bad if bad is not None else term)[:160])
     if 'order' in clauses:
         # value provenance of the parser's ordering argument, whatever the code layout (if-let, Option::map, helper function):
         #   args.ordering.map(p => extract_vars(tokenize(open(p), None)))
@@ -790,7 +816,18 @@ def rule_X4(F, R, clauses=('parse', 'order', 'model', 'retain', 'export', 'vars'
             if e['k'] == 'Block':
                 v2 = dict(val); run(e['stmts'], v2)
                 return tv(e['expr'], v2) if e.get('expr') is not None else ('unit',)
+            if e['k'] == 'Tuple': return ('tuple',) + tuple(tv(f_, val) for f_ in e['fields'])
+            if e['k'] == 'Match' and 'TryDesugar' in str(e.get('source')):
+                sc = strip(e['scrutinee'])
+                if sc['k'] == 'Call' and sc['args']: return tv(sc['args'][0], val)
+            if e['k'] == 'Adt' and canon(e['adt']) == 'std::result::Result' and e['variant'] == 'Ok' and e['fields']: return tv(e['fields'][0]['expr'], val)
             return ('opaque', pp(e)[:60])
+        def bindpat(pat, v_, val):
+            q = unwrap_pat(pat)
+            if q['k'] == 'Binding': val[q['var']] = v_
+            elif q['k'] == 'Leaf' and 'adt' not in q:
+                for sp in q['subs']:
+                    bindpat(sp['pat'], v_[1 + sp['field']] if v_[0] == 'tuple' and 1 + sp['field'] < len(v_) else ('opaque', 'component'), val)
         def merge(val, ck, v1, v2):
             for k_ in set(v1) | set(v2):
                 if k_ in val or (k_ in v1 and k_ in v2):
@@ -842,11 +879,8 @@ def rule_X4(F, R, clauses=('parse', 'order', 'model', 'retain', 'export', 'vars'
                 if s_['k'] == 'Let':
                     if s_.get('init') is None: continue
                     note(s_['init'], val)
-                    v_ = unwrap_pat(s_['pat']).get('var')
-                    ini = s_['init']
                     # `let graph = BDDGraph::new(&result, ..)` and friends are noted above; the binding itself only matters for BDD values
-                    if v_ is not None: val[v_] = tv(ini, val)
-                    if s_.get('else_block') is not None: pass
+                    bindpat(s_['pat'], tv(s_['init'], val), val)
                 else:
                     run_expr(s_['expr'], val)
         b0 = body
@@ -1211,6 +1245,7 @@ def rule_X5(F, R):
         inner = any(any(y['k'] == 'Call' and registers(y) for y in walk(b2)) for (_i, _p, b2) in __import__('engine_l').for_loops(body))
         if has and not inner: steps.append(body)
     n = 0
+    kinds_seen = set()
     for body in steps:
         try:
             paths = run(body, [(TRUE, {CTR: C0}, [])])
@@ -1229,6 +1264,7 @@ def rule_X5(F, R):
             for (v_, looked, loc) in ins:
                 n += 1
                 fresh = any(vv == ('int', 'counter') for vv in v_.terms)
+                kinds_seen.add('fresh' if fresh else ('given' if given(v_) else 'other'))
                 goals = [('le0', v_ + 1 - c1), ('le0', C0 - c1)]
                 if fresh: goals.append(('le0', C0 - v_))
                 cex, _ = find_counterexample([pc], And(*goals))
@@ -1250,7 +1286,9 @@ def rule_X5(F, R):
     stray = [x for x in writes if id(x) not in step_ids]
     R.count('X5:counter-writes', len(writes)); R.obligation(not stray, 'X5 writers')
     if stray: R.violation(fn + ' / X5 / counter writers', 'X5', 'the id counter is written outside the steps that register an id', stray[0].get('loc'))
-    if n < 2: R.violation(fn + ' / X5 / VACUITY', 'VACUITY', 'expected at least 2 id registrations (preloaded ordering, fresh names), found %d' % n)
+    if n < 2 or not {'fresh', 'given'} <= kinds_seen:
+        R.violation(fn + ' / X5 / VACUITY', 'VACUITY', 'expected the registration of a listed id (preloaded ordering) and of a fresh id (new name) among the analysed steps; found %d registration(s) of kind %s: '
+                    'the step that numbers new names was not recognised' % (n, sorted(kinds_seen)))
 
 # ------------------------------------------------------------------------------------------------ X6 sibling agreement
 def recursive_fields(lib):
